@@ -404,7 +404,7 @@ func runC03(t *testing.T, c *choice.Stream, r *Result, opt RunOpt) {
 		}
 		e.Sim.DrawStrategy()
 		e.Sim.StallProb = 0 // fault-free configuration: no simulator-made delays
-		e.Sim.MaxSteps = 400000
+		e.Sim.MaxSteps = 4000000 // a deep exception chain costs a thousand decisions each time the error tree is walked
 		e.W.DeliverMode = c.Weighted("deliver", 3, 1, 3)
 		e.W.ChunkMax = c.Pick("chunkmax", 3, 16, 64, 1024)
 		e.W.ShortReads = c.Pick("shortreads", 0, 0, 100)
